@@ -21,7 +21,7 @@ RULE = ('each case = 10-40 steps on one endpoint: update_settings with one or ma
         'between; in-force values measured by behaviour probes on clones right before and after every ACK; non-trivial = at '
         'least one ACK event and one probe set judged; distinct = hash of the step list')
 MINIMA = {'ack_events_judged': 3000, 'remote_settings_events_judged': 3000, 'probe_sets': 3000, 'raising_updates_judged': 800,
-          'multi_frame_in_flight_acks': 800, 'same_key_twice_in_flight': 200}
+          'multi_frame_in_flight_acks': 800, 'same_key_twice_in_flight': 200, 'empty_updates_sent': 300}
 
 DEFAULT_LOCAL = {1: 4096, 3: 100, 4: 65535, 5: 16384, 6: 65536, 8: 0}
 VALUES = {1: [0, 100, 4096, 8192], 2: [0, 1], 3: [0, 1, 2, 3, 5], 4: [0, 1, 1000, 40000, 65535], 5: [16384, 16385, 20000, 40000],
@@ -209,12 +209,18 @@ def run_case(idx, rng, tier, rep):
         else:
             keys = rng.sample([1, 3, 4, 5, 6] + ([2] if e_client else [8]), rng.choice([1, 1, 2, 3]))
         d = [(k, rng.choice(VALUES[k])) for k in keys]
+        if not invalid and rng.random() < 0.08:
+            # an empty SETTINGS frame is a frame like any other: it is acknowledged, and its ACK applies nothing
+            d = []
+            rep.count('empty_updates_sent')
         if invalid:
             bad_k = rng.choice([k for k in INVALID if (k != 2 or e_client)])
             bad = (bad_k, rng.choice(INVALID[bad_k]))
             d = [p for p in d if p[0] != bad_k]
             d.insert(rng.choice([0, len(d) // 2, len(d)]), bad)
         before = snapshot(h)
+        if 'initial' in fifo and not invalid:
+            st['update_before_initial_ack'] = True
         res = t.call('update_settings', dict(d))
         steps.append(('update_settings', d, 'invalid' if invalid else ''))
         if invalid:
@@ -287,7 +293,9 @@ def run_case(idx, rng, tier, rep):
                 # two mechanisms: the acknowledgement of the *initial* frame (whose values are in force from the start) picking
                 # up the first update_settings sent before it arrived, and - repaired in the library - any acknowledgement
                 # picking up values of a later update_settings
-                key = ('C11:ack-of-initial-frame-applies-first-update-sent-before-it' if frame == 'initial'
+                # (an update sent while the initial frame is still unacknowledged shifts every later acknowledgement by one frame,
+                # so the remainder can also show at a later ACK of the same history)
+                key = ('C11:ack-of-initial-frame-applies-first-update-sent-before-it' if frame == 'initial' or st.get('update_before_initial_ack')
                        else 'C11:ack-applies-pending-changes-of-later-frames')
                 rep.violation(key,
                               'ACK of frame %s reported %s: changes %s belong to SETTINGS frames sent later' % (frame, got, extra),
